@@ -75,9 +75,48 @@ func (b *builder) simpleBody(n int, failing bool) []Cmd {
 		}
 	}
 	if failing {
-		body[b.r.Intn(n)] = Cmd{Kind: 'f'}
+		// the failing position: a command that returns an error, now and then an unknown command name or
+		// (last position only) a command whose text is cut off
+		switch x := b.r.Intn(100); {
+		case x < 70:
+			body[b.r.Intn(n)] = Cmd{Kind: 'f'}
+		case x < 85:
+			body[b.r.Intn(n)] = Cmd{Kind: 'x'}
+			b.st["cmd_unknown"]++
+		default:
+			body[n-1] = Cmd{Kind: 'q'}
+			b.st["cmd_truncated"]++
+		}
 	}
 	return body
+}
+
+// maybeStop turns one command of a simple try body (no nested submission: the context is the body's
+// own) into a command that stops its scope.
+func (b *builder) maybeStop(body []Cmd, num, den int) {
+	if len(body) != 0 && b.r.Chance(num, den) {
+		k := b.r.Intn(len(body))
+		if body[k].Kind == 'p' || body[k].Kind == 'g' {
+			body[k] = Cmd{Kind: 't'}
+			b.st["cmd_stop"]++
+		}
+	}
+}
+
+// refail replaces the failing command `f` of a simple body by an unknown command (x) or moves the
+// failure to a truncated last command (q).
+func refail(body []Cmd, kind byte) {
+	for k := range body {
+		if body[k].Kind == 'f' || body[k].Kind == 'x' || body[k].Kind == 'q' {
+			if kind == 'x' {
+				body[k] = Cmd{Kind: 'x'}
+			} else {
+				body[k] = Cmd{Kind: 'p'}
+				body[len(body)-1] = Cmd{Kind: 'q'}
+			}
+			return
+		}
+	}
 }
 
 // newTry creates try k owned by command i of p: the body task and the handlers chosen by hs
@@ -192,10 +231,16 @@ func (b *builder) fillBody(t *Task) {
 		x := b.r.Intn(100)
 		switch {
 		case m == failAt:
-			body = append(body, Cmd{Kind: 'f'})
+			if b.r.Chance(1, 5) {
+				body = append(body, Cmd{Kind: 'x'})
+				b.st["cmd_unknown"]++
+			} else {
+				body = append(body, Cmd{Kind: 'f'})
+			}
 		case x < b.pTry && t.Depth < maxDepth && b.room() >= 4:
 			y, tb := b.newTry(t, i, b.randHandlers())
 			tb.Body = b.simpleBody(1+b.r.Intn(3), b.r.Chance(2, 5))
+			b.maybeStop(tb.Body, 1, 6)
 			body = append(body, Cmd{Kind: 'y', Arg: y.K})
 		case x < b.pTry+30 && t.Depth < maxDepth && b.budget > 0 && b.room() > 0:
 			b.budget--
@@ -213,7 +258,14 @@ func (b *builder) fillBody(t *Task) {
 		// most bodies hold at least one gate so that tasks truly overlap
 		body = append(body, Cmd{Kind: 'g'})
 	}
-	t.Body = append(body, Cmd{Kind: 'p'})
+	if b.pFail > 0 && b.r.Chance(1, 25) {
+		// the text of the body is cut off inside its last command
+		t.Body = append(body, Cmd{Kind: 'q'})
+		b.st["cmd_truncated"]++
+		b.flag("with_failing_task")
+	} else {
+		t.Body = append(body, Cmd{Kind: 'p'})
+	}
 	if len(children) != 0 {
 		b.fillGroup(children)
 	}
@@ -336,9 +388,17 @@ func (b *builder) fillTryBody(tb *Task, shape int) {
 	switch shape {
 	case shapeOK:
 		tb.Body = b.simpleBody(1+b.r.Intn(3), false)
+		b.maybeStop(tb.Body, 1, 6)
 	case shapeFail0, shapeFail1, shapeFail2:
 		tb.Body = b.simpleBody(3, false)
 		tb.Body[shape-shapeFail0] = Cmd{Kind: 'f'}
+		if b.r.Chance(1, 5) {
+			tb.Body[shape-shapeFail0] = Cmd{Kind: 'x'}
+			b.st["cmd_unknown"]++
+		} else if shape == shapeFail2 && b.r.Chance(1, 3) {
+			tb.Body[2] = Cmd{Kind: 'q'}
+			b.st["cmd_truncated"]++
+		}
 	case shapeNestedOK, shapeNestedFail:
 		ch := b.child(tb, 1)
 		ch.Body = []Cmd{{Kind: 'p'}, {Kind: 'g'}, {Kind: 'p'}}
@@ -478,7 +538,7 @@ const nSteerCombos = 3 * 2 * 12 * 4
 
 var steerModes = [4]byte{'s', 'S', 'f', 'F'}
 
-func genC16Steered(r *hx.Rand, c *Case, st stats, combo int) map[string]bool {
+func genC16Steered(r *hx.Rand, c *Case, st stats, combo, variant int) map[string]bool {
 	b := &builder{r: r, c: c, st: st, caseSt: map[string]bool{}}
 	mode := steerModes[combo%4]
 	combo /= 4
@@ -511,6 +571,30 @@ func genC16Steered(r *hx.Rand, c *Case, st stats, combo int) map[string]bool {
 			b.fillTryBody(tb, shapeFail0+b.r.Intn(3))
 		} else {
 			b.fillTryBody(tb, shapeOK)
+		}
+		// variants 1 and 2 (deterministic, by round): HOW the body ends and HOW a failing handler fails
+		//   1: a failing body ends with a truncated command, an ok body is `p, t, p` (stops its scope),
+		//      failing handlers fail by an unknown command
+		//   2: a failing body fails by an unknown command, failing handlers end with a truncated command
+		switch variant {
+		case 1:
+			if bodyFails {
+				tb.Body = []Cmd{{Kind: 'p'}, {Kind: 'g'}, {Kind: 'q'}}
+			} else {
+				tb.Body = []Cmd{{Kind: 'p'}, {Kind: 't'}, {Kind: 'p'}}
+			}
+		case 2:
+			if bodyFails {
+				tb.Body = []Cmd{{Kind: 'p'}, {Kind: 'x'}, {Kind: 'p'}}
+			}
+		}
+		if variant != 0 {
+			for _, h := range []int{y.Succ, y.Fail, y.Fin} {
+				if h != NoTask {
+					refail(c.Tasks[h].Body, "-xq"[variant])
+				}
+			}
+			st[fmt.Sprintf("steer_variant_%d", variant)]++
 		}
 		c.Steer[y.K] = mode
 		return y
@@ -572,7 +656,7 @@ func gen(w io.Writer, family string, n int) error {
 		case family == "c16s":
 			// every combination once per round, rounds differ in the random details
 			c.Hold = false
-			flags = genC16Steered(r, c, st, (comboStart+i)%nSteerCombos)
+			flags = genC16Steered(r, c, st, (comboStart+i)%nSteerCombos, (i/nSteerCombos)%3)
 		case family == "c14" && i%50 == 49:
 			genChain(c)
 			flags = map[string]bool{"deep_chain": true}
